@@ -1,6 +1,7 @@
 package checks
 
 import (
+	"encoding/json"
 	"fmt"
 	"math/rand"
 	"os"
@@ -418,9 +419,95 @@ func C16(c *vk.Ctx) {
 			used += runHubWalk(c, fam[0], w, RandomShape(rng), c.Seed*7000+int64(fi*1000+wi), predC16)
 			c.Add("traces_validated_against_impl", 1)
 		}
+		// a reload that finds the world unchanged: the same documents, byte for byte, before and after the switch of the policy
+		// options (whatever the first instance worked out about them must not carry over to the second one's judgement)
+		for pi, w := range reloadSameDocPaths(g, fam) {
+			if c.Violations() > 6 {
+				break
+			}
+			seed := c.Seed*7100 + int64(fi*1000+pi)
+			for try := 0; try < 40 && !sameBytesWorld(seed); try++ {
+				seed += 100003 // (a world in which a document published again is the same bytes: see hubWorld.publish)
+			}
+			runHubWalk(c, fam[0], w, RandomShape(rng), seed, predC16)
+			c.Add("traces_validated_against_impl", 1)
+		}
 	}
 	c.Set("spec", "Revocation.tla: VerifyNeverInForce (invariant), LenientRefreshWorks (action property), PolicyAccepts used by every intake action with the context table of DESIGN 3.4")
 	c.Set("rule", "as C01; intake paths: provision-time configured CRL (url/file), first CDP fetch, background load, refresh, each also after restart; signer status: resolvable (A in chain / trusted), unknown (sibling key S, foreign CA B), wrong; predicates compare the real verdict with what the policy ghost demands per signature mode")
+}
+
+// reloadSameDocPaths: Provision(d) [; Handshake(c1, d1)] ; Restart into the other configuration of the family ; Provision(d)
+// [; Handshake(c1, d1)] ; Handshake(c2) for every d and d1 the graph has.
+func reloadSameDocPaths(g *graph.Graph, fam []HubCfg) [][]*graph.Edge {
+	var out [][]*graph.Edge
+	opOf := func(e *graph.Edge) []any {
+		var op []any
+		json.Unmarshal(e.Op, &op)
+		return op
+	}
+	same := func(a, b any) bool { x, _ := json.Marshal(a); y, _ := json.Marshal(b); return string(x) == string(y) }
+	cfgOf := func(state string) string {
+		var st struct {
+			Cfg HubCfg `json:"cfg"`
+		}
+		json.Unmarshal([]byte(state), &st)
+		return st.Cfg.String()
+	}
+	for _, p1 := range g.Out[g.Init] {
+		o1 := opOf(p1)
+		if o1[0] != "provision" {
+			continue
+		}
+		mids := [][]*graph.Edge{{}}
+		for _, h := range g.Out[p1.To] {
+			if o := opOf(h); o[0] == "handshake" && o[1] == "c1" {
+				mids = append(mids, []*graph.Edge{h})
+			}
+		}
+		for _, mid := range mids {
+			cur := p1.To
+			if len(mid) > 0 {
+				cur = mid[0].To
+			}
+			for _, cl := range g.Out[cur] {
+				if opOf(cl)[0] != "cleanup" || cfgOf(cl.To) == cfgOf(cl.From) {
+					continue
+				}
+				for _, p2 := range g.Out[cl.To] {
+					o2 := opOf(p2)
+					if o2[0] != "provision" || !same(o1[1], o2[1]) {
+						continue
+					}
+					w := append(append([]*graph.Edge{p1}, mid...), cl, p2)
+					cur2 := p2.To
+					if len(mid) > 0 {
+						for _, h2 := range g.Out[cur2] {
+							if o := opOf(h2); o[0] == "handshake" && o[1] == "c1" && (len(o) < 3 || same(o[2], opOf(mid[0])[2])) {
+								w = append(w, h2)
+								cur2 = h2.To
+								break
+							}
+						}
+					}
+					for _, h3 := range g.Out[cur2] {
+						if o := opOf(h3); o[0] == "handshake" && o[1] == "c2" {
+							w = append(w, h3)
+							break
+						}
+					}
+					out = append(out, w)
+				}
+			}
+		}
+	}
+	return out
+}
+
+// sameBytesWorld: does the hub world of this seed serve identical bytes for a document that is published again? (mirrors the
+// first draw of newHubWorld)
+func sameBytesWorld(seed int64) bool {
+	return rand.New(rand.NewSource(seed*0x9E3779B9+77)).Intn(2) == 0
 }
 
 // ---- C15 (API level): a list that a refresh pass or a background load took in is in force ----------
